@@ -51,7 +51,7 @@ def run(rep, tier, seed, rng):
         for v in variants(rng, r["files"], r["impl"]["builds"], tier):
             cases.append((r["files"], dict(r["cli"], **v))); owner.append(i)
     sub = e2e.run_batch(laze, driver, cases)
-    nchecked = 0; distinct = set(); ndis = 0
+    nchecked = 0; distinct = set(); ndis = 0; skipped_k06 = 0
     shards = {}
     for r in full + sub:
         if r["tags"] & {"crash", "rc", "predicted-panic", "ninja", "configured", "nobuilds"}:
@@ -64,6 +64,10 @@ def run(rep, tier, seed, rng):
         pf = ninja_parse.parse(fr["impl_raw"]["ninja"].decode("utf-8", "replace"))
         ps = ninja_parse.parse(r["impl_raw"]["ninja"].decode("utf-8", "replace"))
         fullb = {(b["builder"], b["app"]): b for b in fr["impl"]["builds"]}
+        from .. import manifest_checks as mc
+        if any(u for _, _, u in mc.wf_manifest(pf, [])):
+            skipped_k06 += 1      # user-chosen outputs collide in the full file (known finding K06 of C06): 'reachable from' is ambiguous
+            continue
         for b in r["impl"]["builds"]:
             nchecked += 1
             key = (b["builder"], b["app"])
@@ -88,9 +92,39 @@ def run(rep, tier, seed, rng):
         if allb != fullset:
             rep.violation("partitions count:1..%d/%d are not a disjoint cover of the unpartitioned set: %s vs %s" % (n, n, allb, fullset),
                           gen_common.replay_data(full[i], partitions=parts), found_input=True)
+    # --- the same selections issued one after the other in ONE build directory (cache in play):
+    # every step must leave the file a fresh directory gets for that command line
+    fresh = {}
+    for (f, c), r in zip(cases, sub):
+        fresh[json.dumps((f, c), sort_keys=True)] = r["impl_raw"]["ninja"]
+    nseq = 0
+    seq_projects = [i for i in range(len(full)) if full[i]["impl"]["rc"] == 0 and full[i]["impl"]["builds"]][:(12 if tier == "quick" else 120)]
+    def one(i):
+        fr = full[i]
+        mine = [(c, fresh[json.dumps((f, c), sort_keys=True)]) for (f, c), o in zip(cases, owner) if o == i and "partition" in c][:3]
+        steps = []
+        for c, _ in mine[:1]: steps.append(dict(cli=c))
+        steps.append(dict(cli=fr["cli"]))
+        for c, _ in mine: steps.append(dict(cli=c))
+        steps.append(dict(cli=fr["cli"]))
+        want = [x[1] for x in mine[:1]] + [fr["impl_raw"]["ninja"]] + [x[1] for x in mine] + [fr["impl_raw"]["ninja"]]
+        return i, steps, want, e2e.run_sequence(laze, fr["files"], steps)
+    from concurrent.futures import ThreadPoolExecutor
+    with ThreadPoolExecutor(core.NCPU) as ex:
+        seqs = list(ex.map(one, seq_projects))
+    for i, steps, want, got in seqs:
+        for k, (st, w, g) in enumerate(zip(steps, want, got)):
+            nseq += 1
+            if g["rc"] != 0 or g["ninja"] != w:
+                rep.violation("in one build directory, step %d (%s) leaves a ninja file different from a fresh generation with the same arguments (cache hit: %s)"
+                              % (k, {x: st["cli"].get(x) for x in ("partition", "builders", "apps") if x in st["cli"]}, g["cache_hit"]),
+                              dict(files=full[i]["files"], steps=[s["cli"] for s in steps], failing_step=k, rc=g["rc"], cache_hit=g["cache_hit"]),
+                              found_input=True)
+                break
+    rep.cov.update(sequence_steps_in_shared_build_dir=nseq)
     rep.cov.update(evaluations=len(base) + len(cases), distinct_nontrivial=len(distinct),
                    rule="random projects; each is generated in full and then with single builder, single app, a 2x2 subset and every count:k/N (N in 2,3 quick; 1..4 thorough); "
                         "per configured build the closure of statements reachable from its output is compared between runs; shards are checked to be a disjoint cover; "
                         "every run is also compared byte-for-byte with the model; non-trivial = a sub-selection run of a project with >=1 configured build",
-                   samples=[dict(cli=cases[0][1]) if cases else {}], builds_compared=nchecked, disagreements=ndis)
+                   samples=[dict(cli=cases[0][1]) if cases else {}], builds_compared=nchecked, disagreements=ndis, runs_skipped_for_K06_collisions=skipped_k06)
     rep.assumptions.append("local mode (-C subdir without -g) and hash: partitions are not exercised yet; hash: is covered by theorem C10_hash_cover for any shard assignment")
